@@ -23,6 +23,7 @@ import (
 	"github.com/google/certificate-transparency-go/trillian/ctfe/cache"
 	"github.com/google/certificate-transparency-go/trillian/ctfe/configpb"
 	"github.com/google/certificate-transparency-go/trillian/ctfe/storage"
+	"github.com/google/certificate-transparency-go/trillian/util"
 	"github.com/google/certificate-transparency-go/x509"
 	"github.com/google/certificate-transparency-go/x509util"
 	"github.com/google/trillian"
@@ -44,21 +45,25 @@ type ReqLog struct {
 	Statuses []int
 }
 
-func (l *ReqLog) Start(ctx context.Context) context.Context      { return ctx }
-func (l *ReqLog) LogPrefix(context.Context, string)                {}
-func (l *ReqLog) AddDERToChain(context.Context, []byte)            {}
+func (l *ReqLog) Start(ctx context.Context) context.Context         { return ctx }
+func (l *ReqLog) LogPrefix(context.Context, string)                 {}
+func (l *ReqLog) AddDERToChain(context.Context, []byte)             {}
 func (l *ReqLog) AddCertToChain(context.Context, *x509.Certificate) {}
-func (l *ReqLog) FirstAndSecond(context.Context, int64, int64)     {}
-func (l *ReqLog) StartAndEnd(context.Context, int64, int64)        {}
-func (l *ReqLog) LeafIndex(context.Context, int64)                 {}
-func (l *ReqLog) TreeSize(context.Context, int64)                  {}
-func (l *ReqLog) LeafHash(context.Context, []byte)                 {}
+func (l *ReqLog) FirstAndSecond(context.Context, int64, int64)      {}
+func (l *ReqLog) StartAndEnd(context.Context, int64, int64)         {}
+func (l *ReqLog) LeafIndex(context.Context, int64)                  {}
+func (l *ReqLog) TreeSize(context.Context, int64)                   {}
+func (l *ReqLog) LeafHash(context.Context, []byte)                  {}
 func (l *ReqLog) IssueSCT(_ context.Context, b []byte) {
 	l.mu.Lock()
 	l.Issued = append(l.Issued, append([]byte{}, b...))
 	l.mu.Unlock()
 }
-func (l *ReqLog) Status(_ context.Context, s int) { l.mu.Lock(); l.Statuses = append(l.Statuses, s); l.mu.Unlock() }
+func (l *ReqLog) Status(_ context.Context, s int) {
+	l.mu.Lock()
+	l.Statuses = append(l.Statuses, s)
+	l.mu.Unlock()
+}
 func (l *ReqLog) Snapshot() (issued [][]byte, statuses []int) {
 	l.mu.Lock()
 	defer l.mu.Unlock()
@@ -90,7 +95,10 @@ type FE struct {
 	Pool   *x509util.PEMCertPool
 }
 
-func New(c Config) (*FE, error) {
+func New(c Config) (*FE, error) { return NewWithTimeSource(c, c.Clock) }
+
+// NewWithTimeSource is New with an arbitrary time source instead of c.Clock.
+func NewWithTimeSource(c Config, ts util.TimeSource) (*FE, error) {
 	pool := x509util.NewPEMCertPool()
 	for _, r := range c.Roots {
 		cert, err := x509.ParseCertificate(r)
@@ -120,7 +128,7 @@ func New(c Config) (*FE, error) {
 			RequestLog:         rl,
 			MaskInternalErrors: c.Mask,
 		},
-		Validation: v, Signer: c.Signer, TimeSource: c.Clock, Store: c.Store, Cache: c.Cache,
+		Validation: v, Signer: c.Signer, TimeSource: ts, Store: c.Store, Cache: c.Cache,
 	})
 	return &FE{Inst: inst, Log: rl, Prefix: "/" + c.Prefix, Pool: pool}, nil
 }
